@@ -53,6 +53,13 @@ Occ(e, i) ==
         kids |-> IF i % 2 = 1 THEN << [name |-> "x", tp |-> "int", text |-> "1", nil |-> FALSE, kids |-> <<>>] >>
                  ELSE << [name |-> "x", tp |-> "int", text |-> "2", nil |-> FALSE, kids |-> <<>>],
                          [name |-> "y", tp |-> "string", text |-> "t", nil |-> FALSE, kids |-> <<>>] >>]
+  \* a RECURSIVE content model: the element contains x and, optionally, an element of its own name (DTDs: (x, b?))
+  ELSE IF e.tp = "Rec"
+  THEN LET leaf == [name |-> e.name, tp |-> "Rec", text |-> "", nil |-> FALSE,
+                    kids |-> << [name |-> "x", tp |-> "int", text |-> "3", nil |-> FALSE, kids |-> <<>>] >>]
+       IN [name |-> e.name, tp |-> "Rec", text |-> "", nil |-> FALSE,
+           kids |-> << [name |-> "x", tp |-> "int", text |-> "1", nil |-> FALSE, kids |-> <<>>] >>
+                    \o (IF i % 2 = 1 THEN <<>> ELSE << [leaf EXCEPT !.kids = leaf.kids \o <<leaf>>] >>)]
   ELSE IF e.nillable /\ i % 2 = 0 THEN [name |-> e.name, tp |-> e.tp, text |-> "", nil |-> TRUE, kids |-> <<>>]
   ELSE [name |-> e.name, tp |-> e.tp, text |-> IVal(e.tp, i), nil |-> FALSE, kids |-> <<>>]
 
